@@ -490,7 +490,55 @@ class Model:
             env[name] = new
 
     # ------------------------------------------------------------------ calls
+    def chainmap(self, ex, e, st):
+        """collections.ChainMap(m1, ..., *seq_of_maps): lookups search the maps in order, the first one holding the key wins."""
+        fixed, stars = [], []
+        for a in e.args:
+            if isinstance(a, ast.Starred):
+                sv = ex.ev(a.value, st)
+                if sv.ty is TUPLE:
+                    (fixed if not stars else stars).extend(sv.py) if not stars else None
+                    if stars:
+                        raise Unsupported("ChainMap: tuple after a starred sequence")
+                elif isinstance(sv.ty, SeqT) and isinstance(sv.ty.elem, MapT):
+                    stars.append(sv)
+                else:
+                    raise Unsupported(f"ChainMap(*{sv!r})")
+            else:
+                if stars:
+                    raise Unsupported("ChainMap: positional map after a starred sequence")
+                fixed.append(ex.ev(a, st))
+        tys = [m.ty for m in fixed if isinstance(m.ty, MapT)] + [s_.ty.elem for s_ in stars]
+        if not tys:
+            raise Unsupported("ChainMap of untyped maps")
+        ty = tys[0]
+        fixed = [self.empty_container(ex, ty, st) if (m.ty is PY and isinstance(m.py, tuple) and m.py and m.py[0] == "emptydict") else m for m in fixed]
+        n = V(fresh("chainmap", Ref), ty)
+        st.assume(n.term != NONE)
+        k = z3.Const("cmk", ty.key.sort())
+        j, i = z3.Int("cmj"), z3.Int("cmi")
+        has_fixed = [map_has(m.term, k, ty.key) for m in fixed]
+        star_has = lambda s_, idx: map_has(seq_at(s_.term, idx, ty), k, ty.key)
+        in_star = [z3.Exists([j], z3.And(0 <= j, j < seq_len(s_.term), star_has(s_, j))) for s_ in stars]
+        st.assume(z3.ForAll([k], map_has(n.term, k, ty.key) == z3.Or(has_fixed + in_star)))
+        # values: first holder wins
+        earlier = []
+        for m, h in zip(fixed, has_fixed):
+            st.assume(z3.ForAll([k], z3.Implies(z3.And(h, *[z3.Not(x) for x in earlier]),
+                                                map_get(n.term, k, ty.key, ty.val) == map_get(m.term, k, ty.key, ty.val))))
+            earlier.append(h)
+        for si, s_ in enumerate(stars):
+            prev = earlier + in_star[:si]
+            first = z3.And(0 <= j, j < seq_len(s_.term), star_has(s_, j),
+                           z3.ForAll([i], z3.Implies(z3.And(0 <= i, i < j), z3.Not(star_has(s_, i)))), *[z3.Not(x) for x in prev])
+            st.assume(z3.ForAll([k, j], z3.Implies(first, map_get(n.term, k, ty.key, ty.val) ==
+                                                   map_get(seq_at(s_.term, j, ty), k, ty.key, ty.val))))
+        st.assume(seq_len(map_keys(n.term)) >= 0)
+        return n
+
     def call_node(self, ex, e, st):
+        if ast.unparse(e.func) in ("collections.ChainMap", "ChainMap") and not e.keywords:
+            return self.chainmap(ex, e, st)
         # method call syntax first, so that receivers are evaluated once
         if isinstance(e.func, ast.Attribute):
             recv = ex.ev(e.func.value, st)
@@ -881,6 +929,13 @@ class Model:
                     cond = z3.And([ex.ev_truth(c, s2) for c in g.ifs] or [z3.BoolVal(True)])
                     items.append((cond, ex.ev(e.elt, s2)))
                 return pyv(("filtered", tuple(items)))
+            if not g.ifs and not getattr(ex, "spec_mode", False):
+                try:
+                    q = map_seq(self, ex, pyv(("genexp", e, dict(st.env))), st)
+                except Unsupported:
+                    q = None
+                if q is not None:
+                    return q
         if kind == "dict" and len(e.generators) == 1:
             r = self.dict_comprehension(ex, e, st)
             if r is not None:
